@@ -277,10 +277,10 @@ Proof.
     + rewrite lookup_put_other in Hl by assumption. apply Hkeep; try assumption; [tauto | | apply window_eq; reflexivity].
       autorewrite with chat. eapply (unread_upd s _ (s_ch st) ch'); [reflexivity | assumption|]. intros Ec. split; [now apply Hco | assumption].
   - (* poll, end *) apply Hkeep; try assumption; try reflexivity; tauto.
-  - (* drop *) rewrite streams_bury in Hl. destruct (Nat.eq_dec sid0 sid) as [->|Hne]; [now rewrite lookup_del_same in Hl|]. rewrite lookup_del_other in Hl by assumption.
+  - (* drop *) tsimp. rewrite streams_bury in Hl. destruct (Nat.eq_dec sid0 sid) as [->|Hne]; [now rewrite lookup_del_same in Hl|]. rewrite lookup_del_other in Hl by assumption.
     destruct H as [Hl0 Hd]. destruct (Istr _ _ Hl0) as (Hlt & _). apply Hkeep; try assumption; [tauto | | apply window_eq; reflexivity].
     autorewrite with chat. eapply (unread_upd s _ (s_ch st) (drop_rcv sid (chan_at s (s_ch st)))); [reflexivity | assumption|]. intros Ec. split; [now apply cursor_drop_other | reflexivity].
-  - rewrite streams_bury in Hl. destruct (Nat.eq_dec sid0 sid) as [->|Hne]; [now rewrite lookup_del_same in Hl|]. rewrite lookup_del_other in Hl by assumption.
+  - tsimp. rewrite streams_bury in Hl. destruct (Nat.eq_dec sid0 sid) as [->|Hne]; [now rewrite lookup_del_same in Hl|]. rewrite lookup_del_other in Hl by assumption.
     destruct H as [Hl0 Hd]. destruct (Istr _ _ Hl0) as (Hlt & _). apply Hkeep; try assumption; [tauto | | apply window_eq; reflexivity].
     autorewrite with chat. eapply (unread_upd s _ (s_ch st) (drop_rcv sid (chan_at s (s_ch st)))); [reflexivity | assumption|]. intros Ec. split; [now apply cursor_drop_other | reflexivity].
   - (* clone *) tsimp. destruct H as [Hl0 Hd]. destruct (Istr _ _ Hl0) as (Hlt & (p0 & Hp0) & _). apply fresh_spec in H0. destruct H0 as (Hn1 & Hn2 & _).
@@ -299,15 +299,44 @@ Proof.
   - (* set capacity *) tsimp. destruct H as [Hl0 Hd]. destruct (Istr _ _ Hl0) as (Hlt & _). apply Hkeep; try assumption; [tauto | | apply window_eq; reflexivity].
     eapply (unread_upd s _ (s_ch st) (grow n (chan_at s (s_ch st)))); [reflexivity | assumption|]. intros Ec. split; reflexivity.
   - apply Hkeep; try assumption; try reflexivity; tauto.
-  - rewrite streams_bury in Hl. destruct (Nat.eq_dec sid0 sid) as [->|Hne]; [now rewrite lookup_del_same in Hl|]. rewrite lookup_del_other in Hl by assumption.
+  - tsimp. rewrite streams_bury in Hl. destruct (Nat.eq_dec sid0 sid) as [->|Hne]; [now rewrite lookup_del_same in Hl|]. rewrite lookup_del_other in Hl by assumption.
     destruct H as [Hl0 Hd]. destruct (Istr _ _ Hl0) as (Hlt & _). apply Hkeep; try assumption; [tauto | | apply window_eq; reflexivity].
     autorewrite with chat. eapply (unread_upd s _ (s_ch st) (drop_rcv sid (chan_at s (s_ch st)))); [reflexivity | assumption|]. intros Ec. split; [now apply cursor_drop_other | reflexivity].
-  - admit.
-  - admit.
-  - admit.
-  - admit.
-  - admit.
-  - admit.
-Admitted.
+  - (* async drop, subs, done *) pose proof (rm_apply_frame _ _ _ _ H3) as (Esnd & Estr & _ & _ & _ & Erd & _ & Einc & _). tsimp.
+    rewrite streams_bury, Estr in Hl. destruct (Nat.eq_dec sid0 sid) as [->|Hne]; [now rewrite lookup_del_same in Hl|]. rewrite lookup_del_other in Hl by assumption.
+    destruct (Istr _ _ H) as (Hlt & _). apply Hkeep; try assumption.
+    + tsimp. change (senders (bury s1 sid st)) with (senders s1). now rewrite Esnd.
+    + autorewrite with chat. pose proof (rm_apply_chan _ _ _ _ (s_ch st) H3) as Hsoc.
+      assert (Hlt1 : s_ch st < length (chans s1)) by (apply rm_apply_spec, rm_spec_tables in H3; destruct H3 as (_ & _ & _ & _ & _ & El & _); lia).
+      destruct (Nat.eq_dec (s_ch st0) (s_ch st)) as [Ec|Hnc].
+      * rewrite Ec. rewrite chan_at_set_same by assumption. unfold unread. rewrite cursor_drop_other by assumption. rewrite log_drop.
+        now rewrite (soc_cursor _ _ sid0 Hsoc), (soc_log _ _ Hsoc).
+      * rewrite chan_at_set_other by assumption. apply unread_soc. eapply rm_apply_chan; eassumption.
+    + apply window_eq; tsimp; assumption.
+  - (* async drop, subs, wait *) pose proof (rm_apply_frame _ _ _ _ H3) as (Esnd & Estr & _ & _ & _ & Erd & _ & Einc & _). tsimp. rewrite Estr in Hl.
+    apply Hkeep; try assumption; [tsimp; now rewrite Esnd | | apply window_eq; tsimp; assumption].
+    autorewrite with chat. apply unread_soc. eapply rm_apply_chan; eassumption.
+  - (* async drop, sender *) tsimp. rewrite streams_bury, streams_rm in Hl.
+    destruct (Nat.eq_dec sid0 sid) as [->|Hne]; [now rewrite lookup_del_same in Hl|]. rewrite lookup_del_other in Hl by assumption.
+    destruct (Istr _ _ H) as (Hlt & _). apply Hkeep; try assumption.
+    + tsimp. change (senders (bury (rm_sender s r) sid st)) with (senders (rm_sender s r)). rewrite senders_rm. intros Hin. apply in_del_key in Hin. tauto.
+    + autorewrite with chat. pose proof (rm_sender_chan s r (s_ch st)) as Hsoc.
+      assert (Hlt1 : s_ch st < length (chans (rm_sender s r))) by now rewrite length_chans_rm.
+      destruct (Nat.eq_dec (s_ch st0) (s_ch st)) as [Ec|Hnc].
+      * rewrite Ec. rewrite chan_at_set_same by assumption. unfold unread. rewrite cursor_drop_other by assumption. rewrite log_drop.
+        now rewrite (soc_cursor _ _ sid0 Hsoc), (soc_log _ _ Hsoc).
+      * rewrite chan_at_set_other by assumption. apply unread_soc. apply rm_sender_chan.
+    + apply window_eq; tsimp; [apply reader_rm | apply incoming_rm].
+  - pose proof (rm_apply_frame _ _ _ _ H1) as (Esnd & Estr & _ & _ & _ & Erd & _ & Einc & _). tsimp. rewrite Estr in Hl.
+    apply Hkeep; try assumption; [tsimp; now rewrite Esnd | | apply window_eq; tsimp; assumption].
+    autorewrite with chat. apply unread_soc. eapply rm_apply_chan; eassumption.
+  - pose proof (rm_apply_frame _ _ _ _ H1) as (Esnd & Estr & _ & _ & _ & Erd & _ & Einc & _). tsimp. rewrite Estr in Hl.
+    apply Hkeep; try assumption; [tsimp; now rewrite Esnd | | apply window_eq; tsimp; assumption].
+    autorewrite with chat. apply unread_soc. eapply rm_apply_chan; eassumption.
+  - tsimp. rewrite streams_rm in Hl. apply Hkeep; try assumption.
+    + tsimp. rewrite senders_rm. intros Hin. apply in_del_key in Hin. tauto.
+    + autorewrite with chat. apply unread_soc. apply rm_sender_chan.
+    + apply window_eq; tsimp; [apply reader_rm | apply incoming_rm].
+Qed.
 
 End G3.
